@@ -768,11 +768,12 @@ Proof.
 Qed.
 
 (* ---- the loops ---- *)
-Lemma interim_one_MX maxr ss0 cin cout dn se x : MX maxr ss0 x ->
-  exists y, interim_one cin cout dn se x = inl y /\ MX maxr ss0 y.
+Lemma interim_one_MX maxr ss0 cin cout fe dn se x : MX maxr ss0 x ->
+  exists y, interim_one cin cout fe dn se x = inl y /\ MX maxr ss0 y.
 Proof.
   intros Hx. unfold interim_one.
-  set (q := mkQ ST_INTERIM (s_id se) (s_ident se) cin cout 0).
+  set (fc := fetch_ctr fe (s_id se) cin cout (x_sess x)).
+  set (q := mkQ ST_INTERIM (s_id se) (s_ident se) (fst fc) (snd fc) 0).
   assert (H1 : MX maxr ss0 (send q (acked dn q) x)) by (apply MX_send_nonstop; [discriminate|exact Hx]).
   match goal with |- exists y, ctick ?z = inl y /\ _ => assert (H2 : MX maxr ss0 z) end.
   { destruct (acked dn q); [|exact H1]. destruct H1 as [Ha Hb]. split; cbn; assumption. }
@@ -859,7 +860,7 @@ Lemma post_counts ss o r : died o r = false ->
   ss_dropstop (post ss o r) = ss_dropstop ss /\ ss_ackstop (post ss o r) = ss_ackstop ss /\
   ss_maxr (post ss o r) = ss_maxr ss /\
   ss_ended (post ss o r) = match o with
-                           | Stop s _ _ _ _ _ => if o_ret r =? R_OK then s :: ss_ended ss else ss_ended ss
+                           | Stop s _ _ _ _ _ _ => if o_ret r =? R_OK then s :: ss_ended ss else ss_ended ss
                            | _ => ss_ended ss
                            end.
 Proof.
@@ -888,8 +889,8 @@ Proof.
     eexists. split; [reflexivity|]. split; cbn; auto.
 Qed.
 
-Lemma do_interim_cf maxr ss0 cin cout dn order x : MX maxr ss0 x ->
-  exists y, do_interim cin cout dn order x = inl y /\ MX maxr ss0 y.
+Lemma do_interim_cf maxr ss0 cin cout fe dn order x : MX maxr ss0 x ->
+  exists y, do_interim cin cout fe dn order x = inl y /\ MX maxr ss0 y.
 Proof. intros Hx. unfold do_interim. apply fold_m_MX; [|exact Hx]. intros a y Hy. apply interim_one_MX. exact Hy. Qed.
 
 Lemma do_queue_cf maxr ss0 dn x : MX maxr ss0 x ->
@@ -909,12 +910,12 @@ Proof.
   apply Forall_forall. intros p' Hp' E. f_equal. apply (uniq_functional (x_pend x)); auto.
 Qed.
 
-Lemma do_stop_cf maxr ss0 s cause cin cout dn x : MX maxr ss0 x -> x_ret x = 0 ->
+Lemma do_stop_cf maxr ss0 s cause cin cout fe dn x : MX maxr ss0 x -> x_ret x = 0 ->
   match find_sess s (x_sess x) with
-  | None => do_stop s cause cin cout dn x = inl (set_ret 1 x)
+  | None => do_stop s cause cin cout fe dn x = inl (set_ret 1 x)
   | Some se0 =>
-      let q := mkQ ST_STOP s (s_ident se0) cin cout cause in
-      exists y, do_stop s cause cin cout dn x = inl y /\ x_ret y = 0 /\ x_c y = 0 /\
+      exists fi fo, let q := mkQ ST_STOP s (s_ident se0) fi fo cause in
+      exists y, do_stop s cause cin cout fe dn x = inl y /\ x_ret y = 0 /\ x_c y = 0 /\
                 x_ev y = x_ev x ++ [(wire q, acked dn q)] /\
                 x_pend y = (if acked dn q then x_pend x else x_pend x ++ [mkP (x_stamp x) q 0]) /\
                 x_chan y = (if acked dn q then x_chan x else x_chan x ++ [(x_stamp x, q)]) /\
@@ -923,6 +924,8 @@ Lemma do_stop_cf maxr ss0 s cause cin cout dn x : MX maxr ss0 x -> x_ret x = 0 -
 Proof.
   intros [_ Hc] Hr. unfold do_stop. destruct (find_sess s (x_sess x)) as [se0|]; [|reflexivity].
   destruct x as [se pe ch fi pj st ev c mk rt]. cbn in Hc, Hr. subst c rt. cbn.
+  match goal with |- context [fetch_ctr fe s cin cout ?l] => generalize (fetch_ctr fe s cin cout l) end.
+  intros [a b]. exists a, b. cbn.
   destruct (acked dn _); cbn; eexists; (split; [reflexivity|cbn; repeat split; reflexivity]).
 Qed.
 
@@ -954,13 +957,13 @@ Proof.
   intros H. unfold do_start. destruct (find_sess s (x_sess x)); [cbn; lia|].
   apply RX_bind; [apply RX_ctick; rewrite !ret_mark, ret_send; exact H|]. intros y Hy. apply RX_ctick. exact Hy.
 Qed.
-Lemma RX_do_stop s cause cin cout dn x : x_ret x <= 1 -> RX (do_stop s cause cin cout dn x).
+Lemma RX_do_stop s cause cin cout fe dn x : x_ret x <= 1 -> RX (do_stop s cause cin cout fe dn x).
 Proof.
   intros H. unfold do_stop. destruct (find_sess s (x_sess x)); [|cbn; lia].
   apply RX_bind; [apply RX_ctick; exact H|]. intros y Hy.
   apply RX_bind; [apply RX_ctick; rewrite ret_send; exact Hy|]. intros z Hz. apply RX_ctick. rewrite ret_mark. exact Hz.
 Qed.
-Lemma RX_do_interim cin cout dn order x : x_ret x <= 1 -> RX (do_interim cin cout dn order x).
+Lemma RX_do_interim cin cout fe dn order x : x_ret x <= 1 -> RX (do_interim cin cout fe dn order x).
 Proof.
   intros H. unfold do_interim. apply RX_fold_m; [|exact H]. intros a y Hy. unfold interim_one. apply RX_ctick.
   destruct (acked dn _); cbn; rewrite ?ret_send; exact Hy.
@@ -981,7 +984,7 @@ Proof. destruct (pre_counts ss o r) as (E1 & E2 & E3 & _). apply M_same; auto. Q
 
 (* an op that ran to completion (inl y), seen from the state level *)
 Lemma leave_cf s ss o y :
-  (match o with Stop _ _ _ _ _ _ | GracefulStop _ _ _ _ _ => False | _ => True end) ->
+  (match o with Stop _ _ _ _ _ _ _ | GracefulStop _ _ _ _ _ _ => False | _ => True end) ->
   st_alive s = true -> ss_maxr ss = st_maxr s -> x_ret y <= 1 ->
   MX (st_maxr s) (pre ss o (snd (fst (leave s false (inl y))))) y ->
   JS (fst (fst (leave s false (inl y)))) (supd ss o (snd (fst (leave s false (inl y))))).
